@@ -344,6 +344,60 @@ def run_reused_sampler(cfg):
     return r.dump()
 
 
+def run_legacy_generator(cfg):
+    """A generator that is not a numpy.random.Generator instance (the legacy RandomState, which offers the same methods)
+    handed to the sampler constructor / to the top-level call: it is the one that drives the run."""
+    import _kernel
+    import orng
+    from aspire import Aspire
+    from env.flows import AnalyticFlow
+    from env.targets import Monitor
+
+    way, seed = cfg["way"], cfg["seed"]
+    r = Report()
+    case = {"legacy_generator": True, "cfg": cfg}
+    r.case(explorer.digest(case), nontrivial=True)
+    p = rh.problem("none")
+    outs = []
+    real_default_rng = np.random.default_rng
+    try:
+        for salt in (1, 2):
+            np.random.seed(1000 + salt)
+            random.seed(2000 + salt)
+            n_default = []
+            orng.CONFIG["factory"] = lambda: (n_default.append(1), real_default_rng(700000 + salt + len(n_default)))[1]
+            _kernel.reset(mode="prw", scale=0.5, horizon=500)
+            mon = Monitor(p["like"], p["prior"], "numpy", keep_points=False)
+            flow = AnalyticFlow(2, seed=seed + 1000, **p["flow"])
+            a = Aspire(log_likelihood=mon.log_likelihood, log_prior=mon.log_prior, dims=2, parameters=p["parameters"],
+                       prior_bounds=p["bounds"], flow=flow, xp=get_xp("numpy"))
+            g = np.random.RandomState(seed)
+            st0 = g.get_state()[1].copy()
+            kw = dict(adaptive=True, target_efficiency=0.8, sampler_kwargs={"n_steps": 2}, n_final_samples=10)
+            if way == "constructor":
+                smp = a.init_sampler("smc", preconditioning="none", rng=g)
+                a._sampler = smp
+                res = smp.sample(8, **kw)
+            else:
+                res = a.sample_posterior(n_samples=8, sampler="smc", preconditioning="none", rng=g, **kw)
+            h = a.sampler.history
+            outs.append((digest_arrays([res.x, res.log_likelihood, res.log_evidence] + list(h.beta)), not np.array_equal(g.get_state()[1], st0), len(n_default)))
+    except Exception as e:
+        from env import exc_site
+
+        r.violation(f"C20/smc/legacy-generator/raises/{type(e).__name__}/{exc_site(e)}/{way}", repr(e)[:200], case)
+        return r.dump()
+    finally:
+        orng.CONFIG["factory"] = None
+    r.outcomes.add(outs[0][0])
+    if outs[0][0] != outs[1][0]:
+        r.violation(f"C20/smc/not-reproducible/{way}/legacy-generator", {"default_generators_created": outs[0][2], "user_generator_advanced": outs[0][1]}, case)
+    if not outs[0][1]:
+        r.violation(f"C20/smc/user-generator-not-used/{way}/legacy-generator", {"default_generators_created": outs[0][2]}, case)
+    r.sample(case)
+    return r.dump()
+
+
 def run_loaded_flow(cfg):
     """A proposal that comes from a file: load (ZukoFlow.load / Aspire.resume_from_file), then draw - twice, with differently
     seeded global sources in the two sessions.  The flow's stored seed is the only explicit source."""
@@ -501,6 +555,9 @@ def run(tier, seed, workers):
                 jobs.append(("run_reused_sampler", {"sampler": sampler, "seed": sd, "precond": precond}))
         if sampler in ("smc", "minipcn"):
             jobs.append(("run_reused_sampler", {"sampler": sampler, "seed": 0, "precond": "flow"}))
+    for way in ("constructor", "top_level"):
+        for sd in (0, 1):
+            jobs.append(("run_legacy_generator", {"way": way, "seed": sd}))
     for route in ("resume_from_file", "ZukoFlow.load"):
         for sd in sorted({0, 1, seed}) if tier == "thorough" else (0, 1):
             jobs.append(("run_loaded_flow", {"route": route, "seed": sd}))
@@ -521,6 +578,9 @@ def run(tier, seed, workers):
 
 def replay(case):
     r = Report()
+    if case.get("legacy_generator"):
+        r.merge(run_legacy_generator(case["cfg"]))
+        return r
     if case.get("loaded_flow"):
         r.merge(run_loaded_flow(case["cfg"]))
         return r
